@@ -35,6 +35,9 @@ let () =
         let claims = List.filter_map (fun (ln, t) -> match t with _ :: "cur_cas" :: "1" :: c :: _ -> Some (ln, int_of_string c) | _ -> None) evs in
         let rewinds = List.filter_map (fun (ln, t) -> match t with _ :: "cur_rewind" :: v :: p :: _ -> Some (ln, int_of_string v, int_of_string p) | _ -> None) evs in
         List.iter (fun (ln, t) -> match t with
+          | _ :: "cur_rewound" :: v :: t0 :: lower :: _ ->
+            if int_of_string lower <= int_of_string t0 then
+              raise (Direct (Printf.sprintf "rewind_validation_to(%s) returned with lower_timestamp = %s, not newer than the timestamp %s issued before the call: a validation that predates the rewind could become final (line %d)" v lower t0 ln))
           | _ :: "cur_result" :: g :: lim :: _ ->
             let g = int_of_string g and lim = int_of_string lim in
             if g >= lim then raise (Direct (Printf.sprintf "claim with limit %d returned %d (line %d)" lim g ln))
